@@ -1,0 +1,25 @@
+//go:build verif
+
+package http
+
+// Contracts for package http (hap/http), checked by /verif (govc). Comment-only file: it adds no declarations.
+
+//@ func WriteJSON(w, r, v) (err)
+//@   requires w != nil
+//@   modifies sink(w), status(w)
+//@   ensures old(status(w)) != 0 ==> status(w) == old(status(w))
+
+// ---- C01: Authenticate wraps a handler; the wrapper (closure Authenticate$1) calls it only for a verified session
+//@ func (srv *Server) Authenticate(next) (h)
+//@   requires srv != nil && next != nil
+//@   ensures isfunc(h, "(*github.com/brutella/hc/hap/http.Server).Authenticate$1")
+
+//@ func (srv *Server) Authenticate$1(w, r)
+//@   requires w != nil && r != nil && srv != nil && srv.context != nil && next != nil
+//@   modifies heap, sink(w), status(w), subs, dbver, lastname, lastkey, dbhas, dbkey
+//@   ensures refused: !old(verified(sessOf(r))) ==> status(w) == ite(old(status(w)) == 0, 470, old(status(w))) && nochange(sink, status)
+
+// every protected path is registered with the Authenticate wrapper (precondition of ServeMux.Handle, nethttp.spec)
+//@ func (s *Server) setupEndpoints()
+//@   requires s != nil && s.Mux != nil
+//@   modifies heap
